@@ -4,6 +4,7 @@ import Driver.Types
 import Driver.Names
 import Driver.Validators
 import Driver.History
+import Driver.Config
 /-! `tgdriver`: reads one JSON request per line on stdin, answers one JSON line per request. -/
 open Lean Drv
 
@@ -19,6 +20,8 @@ def dispatch (op : String) (inp imp : Json) : Except String Json :=
   | "fieldAttrs" => opFieldAttrs inp imp
   | "validator" => opValidator inp imp
   | "history" => opHistory inp imp
+  | "configSave" => opConfigSave inp imp
+  | "configResolve" => opConfigResolve inp imp
   | _ => .error s!"unknown op {op}"
 
 def handleLine (line : String) : String :=
